@@ -772,3 +772,63 @@ def _parent_attr(fn, call):
         if isinstance(n, ast.Attribute) and n.value is call:
             return n.attr
     return None
+
+
+# --------------------------------------------------------------------------- C20
+@register("C20")
+def c20_sites(repo_root, tier):
+    repo = Repo(repo_root)
+    obs = []
+    em = repo.module("liquid2.builtin.expressions")
+    # (1) every place that turns a string token into a value applies the decoder (after \' -> ' for single quotes)
+    n_sites = 0
+    for m, qual, cls, fn, parent in _all_functions(repo):
+        if not (m.name.startswith("liquid2.builtin") or m.name.startswith("liquid2.shopify")):
+            continue
+        for n in own_nodes(fn):
+            # is_token_type(tok, TokenType.DOUBLE_QUOTE_STRING / SINGLE_QUOTE_STRING) guards
+            if isinstance(n, ast.If):
+                t = ast.unparse(n.test)
+                for kind in ("DOUBLE_QUOTE_STRING", "SINGLE_QUOTE_STRING"):
+                    if f"TokenType.{kind})" in t and "is_token_type(" in t and " or " not in t and " and " not in t:
+                        n_sites += 1
+                        body = ast.unparse(ast.Module(body=n.body, type_ignores=[]))
+                        uses_value = ".value" in body
+                        ok = (not uses_value) or ("unescape(" in body and (kind == "DOUBLE_QUOTE_STRING" or "replace(\"\\\\'\", \"'\")" in body))
+                        _ob(obs, f"{m.name}:{qual}/site.string-literal-decoded@{n.lineno - fn.lineno}.{kind}", ok,
+                            f"{kind} token value " + ("is decoded with unescape()" + (" after \\' -> '" if kind == "SINGLE_QUOTE_STRING" else "") if ok else "is used without unescape()"))
+    _ob(obs, "liquid2/site.string-literal-sites.count", n_sites >= 8, f"{n_sites} string-literal parse sites found")
+    # (2) the lexer keeps the raw text of bracketed string segments, decoded where the path is built
+    # (3) integer literals: exact conversion, no float()
+    fn = em.functions.get("_parse_int_literal") if em else None
+    ok = False
+    note = "_parse_int_literal not found (integer literals parsed some other way)"
+    if fn is not None:
+        calls = {ast.unparse(c.func) for c in _calls(fn)}
+        ok = "float" not in calls and "to_int" in calls
+        note = "integer literals are converted digit-exactly (to_int of the digits, times 10**exponent), never through float()" if ok else f"_parse_int_literal calls {sorted(calls)}"
+    _ob(obs, "liquid2.builtin.expressions:_parse_int_literal/site.exact-int", ok, note)
+    int_sites = 0
+    bad = []
+    for m, qual, cls, fn2, parent in _all_functions(repo):
+        for c in _calls(fn2):
+            if isinstance(c.func, ast.Name) and c.func.id == "IntegerLiteral" and len(c.args) == 2:
+                int_sites += 1
+                if ast.unparse(c.args[1]) != "_parse_int_literal(token)":
+                    bad.append(f"{m.name}:{qual}@{c.lineno}: IntegerLiteral(.., {ast.unparse(c.args[1])})")
+    _ob(obs, "liquid2/site.integer-literal-sites", not bad and int_sites >= 2, f"{int_sites} IntegerLiteral construction sites, all via _parse_int_literal" if not bad else str(bad[:3]))
+    # (4) float literals: float(token.value) (Python's own correctly rounded conversion)
+    fsites = [c for m, qual, cls, fn2, parent in _all_functions(repo) for c in _calls(fn2) if isinstance(c.func, ast.Name) and c.func.id == "FloatLiteral" and len(c.args) == 2]
+    ok = bool(fsites) and all(ast.unparse(c.args[1]) == "float(token.value)" for c in fsites)
+    _ob(obs, "liquid2/site.float-literal-sites", ok, f"{len(fsites)} FloatLiteral sites use float(token.value)")
+    # (5) the json filter hands its input to json.dumps unchanged
+    mm = repo.module("liquid2.builtin.filters.misc")
+    fn = mm.find("JSON.__call__") if mm else None
+    ok = False
+    if fn is not None:
+        dumps = [c for c in _calls(fn) if ast.unparse(c.func) == "json.dumps"]
+        ok = bool(dumps) and all(c.args and ast.unparse(c.args[0]) == "left" for c in dumps)
+    _ob(obs, "liquid2.builtin.filters.misc:JSON.__call__/site.dumps-unchanged", ok, "json.dumps(left, ...) is applied to the filter input itself")
+    return {"obligations": obs, "samples": [{"obligation": o["oid"], "backend": "site", "note": o["note"]} for o in obs[:2]],
+            "trusted": ["json.dumps / json.loads are inverse on JSON-like values (library contract)", "float(str) is correctly rounded (CPython)"],
+            "functions": [], "assumptions": ["replacing \\' by ' in a single-quoted literal preserves the pre-unit structure (no \\\\' can occur inside it)"]}
